@@ -21,6 +21,7 @@ def errName : Err → String
   | .clientNotActive => "client-not-active"
   | .invalidMisbehaviour => "invalid-misbehaviour"
   | .invalidSignatureAndData => "invalid-signature-and-data"
+  | .panic => "panic"
 
 def stateFields (s : State) : List (String × Json) :=
   [("seq", num s.seq), ("frozen", Json.bool s.frozen), ("key", num s.key), ("div", Json.str (hex s.div)),
@@ -28,6 +29,7 @@ def stateFields (s : State) : List (String × Json) :=
 
 def resJson (s : State) : Res → Json
   | .ok => Json.mkObj ([("r", Json.str "ok")] ++ stateFields s)
+  | .err .panic => Json.mkObj ([("r", Json.str "panic")] ++ stateFields s)
   | .err e => Json.mkObj ([("r", Json.str "err"), ("err", Json.str (errName e))] ++ stateFields s)
 
 def sigOf (v : Json) : Except String Sig := do
@@ -39,6 +41,7 @@ def sdOf (v : Json) : Except String SigData := do
   match ← str v "k" with
   | "empty" => pure .empty
   | "garbage" => pure .garbage
+  | "nosum" => pure .nosum
   | _ => pure (.sig (← sigOf (← v.getObjVal? "sig")))
 
 def proofOf (v : Json) : Except String ProofArg := do
